@@ -407,7 +407,8 @@ def run_single(fns, op, bs, nb, kicks, timeout_ms=600000):
             ask(s, 'invariant_n_is_nonzero_slots', z3.Not(inv))
         elif op == 'query':
             fam['ret'] = fam.get('ret', 0) + 1
-            ask(s, 'query_iff_copy_stored', z3.Not(val == z3.UGE(cx_pre, 1)))
+            ask(s, 'query_true_if_copy_stored', z3.And(z3.UGE(cx_pre, 1), z3.Not(val)))   # no false negative (C01, C14)
+            ask(s, 'query_false_if_no_copy', z3.And(z3.Not(z3.UGE(cx_pre, 1)), val))      # no bookkeeping false positive (C14)
             ask(s, 'query_is_pure', z3.Not(z3.And([a == b for a, b in zip(tv, slots)] + [n2 == n])))
     out['witnesses'] = fam
     out['wall_s'] = round(time.time() - t0, 1)
